@@ -8,8 +8,6 @@ Local Open Scope N_scope.
 Lemma live_not_junk f s k i : live s = true -> junk (PMsg f s k i) = false.
 Proof. cbn [junk]. intros ->. reflexivity. Qed.
 
-(* closes goals of the form  p = q -> False  for syntactically different
-   paths, or paths distinguished by a junk/live hypothesis *)
 Ltac diff_path :=
   let E := fresh "E" in
   intro E; inversion E; subst;
@@ -23,33 +21,96 @@ Ltac frame_by A :=
   apply (apply_op_frame _ _ _ _ _ A); cbn [mentions];
   first [ intros [?E|?E]; [revert E; diff_path|revert E; diff_path] | diff_path ].
 
+Lemma move_path_entry lay a b p : move_path lay a b p = move_entry lay a b p.
+Proof. reflexivity. Qed.
+
+Lemma apply_renamedir lay m a b m' :
+  apply_op lay m (ORenameDir a b) = Some m' ->
+  m' = map (fun e => (move_path lay a b (fst e), snd e)) m.
+Proof.
+  cbn [apply_op]. destruct (lookup m (PDir a)) as [[|c]|]; try discriminate.
+  destruct (exists_ m (PDir b)); [discriminate|]. intro H. injection H as <-.
+  apply rename_dir_map.
+Qed.
+
+(* a present entry travels with its folder *)
+Lemma renamedir_forward lay m a b m' p n :
+  rename_ok lay m a b -> apply_op lay m (ORenameDir a b) = Some m' ->
+  lookup m p = Some n -> lookup m' (move_path lay a b p) = Some n.
+Proof.
+  intros R A H. rewrite (apply_renamedir _ _ _ _ _ A).
+  rewrite (lookup_map_inj (move_path lay a b) m p); [exact H|].
+  intros q Hq E. apply R; [exact Hq| |exact E].
+  apply in_map_iff. exists (p, n). split; [reflexivity|exact (lookup_In _ _ _ H)].
+Qed.
+
+(* every entry after the rename is one from before, moved *)
+Lemma renamedir_backward lay m a b m' q n :
+  NoDup (map fst m) -> apply_op lay m (ORenameDir a b) = Some m' ->
+  lookup m' q = Some n -> exists p, lookup m p = Some n /\ move_path lay a b p = q.
+Proof.
+  intros Hnd A H. rewrite (apply_renamedir _ _ _ _ _ A) in H.
+  destruct (lookup_map_some _ _ _ _ H) as [p [Hin Hp]].
+  exists p. split; [exact (In_lookup _ _ _ Hnd Hin)|exact Hp].
+Qed.
+
+Lemma move_path_uidl lay a b f :
+  move_path lay a b (PCtl f CUidl) = PCtl (moved_name lay (ORenameDir a b) f) CUidl.
+Proof. unfold move_path, moved_name. cbn [folder_of].
+  destruct (moved_folder lay a b f); reflexivity. Qed.
+
+Lemma move_path_msg lay a b f s k i :
+  move_path lay a b (PMsg f s k i) = PMsg (moved_name lay (ORenameDir a b) f) s k i.
+Proof. unfold move_path, moved_name. cbn [folder_of].
+  destruct (moved_folder lay a b f); reflexivity. Qed.
+
+Lemma move_path_is_uidl lay a b p g :
+  move_path lay a b p = PCtl g CUidl -> exists f, p = PCtl f CUidl.
+Proof.
+  unfold move_path. destruct (moved_folder lay a b (folder_of p)); destruct p; cbn [with_folder];
+    intro E; inversion E; subst; eexists; reflexivity.
+Qed.
+
+Lemma move_path_is_msg lay a b p g s k i :
+  move_path lay a b p = PMsg g s k i -> exists f, p = PMsg f s k i.
+Proof.
+  unfold move_path. destruct (moved_folder lay a b (folder_of p)); destruct p; cbn [with_folder];
+    intro E; inversion E; subst; eexists; reflexivity.
+Qed.
+
+Definition is_renamedir (o : fsop) : Prop := exists a b, o = ORenameDir a b.
+
 (* what a legal operation can do to a uid-list path *)
 Lemma legal_uidl_path lay m o m' f :
-  legal m o -> apply_op lay m o = Some m' ->
-  lookup m' (PCtl f CUidl) = lookup m (PCtl f CUidl)
-  \/ exists n t u', o = ORename (PTmp f n) (PCtl f CUidl)
-       /\ lookup m (PTmp f n) = Some (File (Text t))
-       /\ lookup m' (PCtl f CUidl) = Some (File (Text t))
-       /\ parse_uidl t = Ok u' /\ uids_ok u'
-       /\ (forall u, uidl_at m f u -> extends (has_file m f) u u').
+  legal lay m o -> apply_op lay m o = Some m' ->
+  ((forall a b, o <> ORenameDir a b) /\ lookup m' (PCtl f CUidl) = lookup m (PCtl f CUidl))
+  \/ (exists n u', o = ORename (PTmp f n) (PCtl f CUidl)
+       /\ lookup m (PTmp f n) = Some (File (Text (print_uidl u')))
+       /\ lookup m' (PCtl f CUidl) = Some (File (Text (print_uidl u')))
+       /\ wf_uidl u' = true /\ uids_ok u'
+       /\ (forall u, uidl_at m f u -> extends (has_file m f) u u'))
+  \/ (exists a b, o = ORenameDir a b /\ rename_ok lay m a b).
 Proof.
   intros L A.
-  destruct L as [p Hj|p c Hj|p Hj|p|p|g|g s k i Hs Hk|g s s' k i i' Hs Hs'
-                |g h s s' k i Hs Hs'|g s k i Hs|g n t u' Ht Hp Hu He|n|];
-    try (left; frame_by A).
-  - (* utime *) left. cbn [apply_op] in A. destruct (exists_ m p); [|discriminate A].
+  destruct L as [p Hj|p c Hj|p Hj|p|p|g|g s k i c Hs Hk Hwk Hwi Hsrc|g s s' k i i' Hs Hs' Hwi
+                |g h s s' k i Hs Hs'|g s k i Hs|g n u' Ht Hw Hu He|n| |a b R];
+    try (left; split; [intros ? ? E; discriminate E|]; frame_by A).
+  - (* utime *) left. split; [intros ? ? E; discriminate E|].
+    cbn [apply_op] in A. destruct (exists_ m p); [|discriminate A].
     injection A as <-. reflexivity.
   - (* install *)
     destruct (fname_eqb g f) eqn:Eg.
-    + apply fname_eqb_eq in Eg. subst g. right. exists n, t, u'.
+    + apply fname_eqb_eq in Eg. subst g. right. left. exists n, u'.
       destruct (apply_rename _ _ _ _ _ A) as [c [Hc Hl]].
       rewrite Ht in Hc. injection Hc as <-.
       split; [reflexivity|]. split; [exact Ht|].
       split; [rewrite Hl, path_eqb_refl; reflexivity|].
-      split; [exact Hp|]. split; [exact Hu|exact He].
-    + left. apply (apply_op_frame _ _ _ _ _ A). cbn [mentions].
+      split; [exact Hw|]. split; [exact Hu|exact He].
+    + left. split; [intros ? ? E; discriminate E|].
+      apply (apply_op_frame _ _ _ _ _ A). cbn [mentions].
       intros [E|E]; inversion E; subst.
       assert (fname_eqb f f = true) by (apply fname_eqb_eq; reflexivity). congruence.
+  - right. right. exists a, b. split; [reflexivity|exact R].
 Qed.
 
 Definition live_path (q : path) : Prop :=
@@ -59,95 +120,125 @@ Definition key_of (q : path) : bytes :=
 
 (* ... and to the delivered message files *)
 Lemma legal_live lay m o m' :
-  legal m o -> apply_op lay m o = Some m' ->
-  (forall q, live_path q -> lookup m' q = lookup m q)
+  legal lay m o -> apply_op lay m o = Some m' ->
+  ((forall a b, o <> ORenameDir a b) /\ forall q, live_path q -> lookup m' q = lookup m q)
   \/ (exists src dst c, o = OLink src dst /\ live_path dst /\ key_unused m (key_of dst)
-        /\ forall r, lookup m' r = if path_eqb dst r then Some (File c) else lookup m r)
+        /\ lookup m src = Some (File (Opaque c))
+        /\ (exists f s k i, dst = PMsg f s k i /\ wf_key k = true /\ wf_info i = true)
+        /\ forall r, lookup m' r = if path_eqb dst r then Some (File (Opaque c)) else lookup m r)
   \/ (exists src dst c, o = ORename src dst /\ live_path src /\ live_path dst
         /\ key_of src = key_of dst /\ lookup m src = Some (File c)
+        /\ (exists f s k i g s' i', src = PMsg f s k i /\ dst = PMsg g s' k i'
+                                    /\ (i' = i \/ wf_info i' = true))
         /\ forall r, lookup m' r = if path_eqb dst r then Some (File c)
                                    else if path_eqb src r then None else lookup m r)
   \/ (exists p, o = OUnlink p /\ live_path p
-        /\ forall r, lookup m' r = if path_eqb p r then None else lookup m r).
+        /\ forall r, lookup m' r = if path_eqb p r then None else lookup m r)
+  \/ (exists a b, o = ORenameDir a b /\ rename_ok lay m a b).
 Proof.
   intros L A.
-  destruct L as [p Hj|p c Hj|p Hj|p|p|g|g s k i Hs Hk|g s s' k i i' Hs Hs'
-                |g h s s' k i Hs Hs'|g s k i Hs|g n t u' Ht Hp Hu He|n|];
-    try (left; intros q [f0 [s0 [k0 [i0 [-> Hl0]]]]]; frame_by A).
-  - (* utime *) left. intros q _. cbn [apply_op] in A. destruct (exists_ m p); [|discriminate A].
+  destruct L as [p Hj|p c Hj|p Hj|p|p|g|g s k i c Hs Hk Hwk Hwi Hsrc|g s s' k i i' Hs Hs' Hwi
+                |g h s s' k i Hs Hs'|g s k i Hs|g n u' Ht Hw Hu He|n| |a b R];
+    try (left; split; [intros ? ? E; discriminate E|];
+         intros q [f0 [s0 [k0 [i0 [-> Hl0]]]]]; frame_by A).
+  - (* utime *) left. split; [intros ? ? E; discriminate E|].
+    intros q _. cbn [apply_op] in A. destruct (exists_ m p); [|discriminate A].
     injection A as <-. reflexivity.
   - (* link *) right. left.
-    destruct (apply_link _ _ _ _ _ A) as [c [_ [_ Hl]]].
-    exists (PMsg g STmp k []), (PMsg g s k i), c. repeat split; try assumption.
-    exists g, s, k, i. split; [reflexivity|exact Hs].
+    destruct (apply_link _ _ _ _ _ A) as [c0 [Hc [_ Hl]]]. rewrite Hsrc in Hc. injection Hc as <-.
+    exists (PMsg g STmp k []), (PMsg g s k i), c.
+    split; [reflexivity|]. split; [exists g, s, k, i; split; [reflexivity|exact Hs]|].
+    split; [exact Hk|]. split; [exact Hsrc|].
+    split; [exists g, s, k, i; repeat split; assumption|exact Hl].
   - (* flags *) right. right. left.
     destruct (apply_rename _ _ _ _ _ A) as [c [Hc Hl]].
-    exists (PMsg g s k i), (PMsg g s' k i'), c. repeat split; try assumption.
-    + exists g, s, k, i. split; [reflexivity|exact Hs].
-    + exists g, s', k, i'. split; [reflexivity|exact Hs'].
+    exists (PMsg g s k i), (PMsg g s' k i'), c.
+    split; [reflexivity|]. split; [exists g, s, k, i; split; [reflexivity|exact Hs]|].
+    split; [exists g, s', k, i'; split; [reflexivity|exact Hs']|].
+    split; [reflexivity|]. split; [exact Hc|].
+    split; [exists g, s, k, i, g, s', i'; repeat split; right; exact Hwi|exact Hl].
   - (* move *) right. right. left.
     destruct (apply_rename _ _ _ _ _ A) as [c [Hc Hl]].
-    exists (PMsg g s k i), (PMsg h s' k i), c. repeat split; try assumption.
-    + exists g, s, k, i. split; [reflexivity|exact Hs].
-    + exists h, s', k, i. split; [reflexivity|exact Hs'].
-  - (* expunge *) right. right. right.
-    exists (PMsg g s k i). repeat split.
-    + exists g, s, k, i. split; [reflexivity|exact Hs].
-    + exact (apply_unlink _ _ _ _ A).
+    exists (PMsg g s k i), (PMsg h s' k i), c.
+    split; [reflexivity|]. split; [exists g, s, k, i; split; [reflexivity|exact Hs]|].
+    split; [exists h, s', k, i; split; [reflexivity|exact Hs']|].
+    split; [reflexivity|]. split; [exact Hc|].
+    split; [exists g, s, k, i, h, s', i; repeat split; left; reflexivity|exact Hl].
+  - (* expunge *) right. right. right. left.
+    exists (PMsg g s k i). split; [reflexivity|].
+    split; [exists g, s, k, i; split; [reflexivity|exact Hs]|exact (apply_unlink _ _ _ _ A)].
+  - right. right. right. right. exists a, b. split; [reflexivity|exact R].
 Qed.
 
 Lemma legal_msg_path lay m o m' f s k i :
-  legal m o -> apply_op lay m o = Some m' -> live s = true -> ~ touches o k ->
+  legal lay m o -> apply_op lay m o = Some m' -> live s = true -> ~ touches o k ->
   lookup m (PMsg f s k i) <> None ->
-  lookup m' (PMsg f s k i) = lookup m (PMsg f s k i).
+  lookup m' (PMsg (moved_name lay o f) s k i) = lookup m (PMsg f s k i).
 Proof.
   intros L A Hs Ht Hex.
   assert (LP : live_path (PMsg f s k i)) by (exists f, s, k, i; split; [reflexivity|exact Hs]).
-  destruct (legal_live _ _ _ _ L A) as [F|[HL|[HR|HU]]];
-    [|destruct HL as (src & dst & c & -> & (g & t & k0 & j & -> & Ht0) & Hk & Hl)
+  destruct (legal_live _ _ _ _ L A) as [F|[HL|[HR|[HU|HD]]]];
+    [|destruct HL as (src & dst & c & -> & (g & t & k0 & j & -> & Ht0) & Hk & _ & _ & Hl)
      |destruct HR as (src & dst & c & -> & (g & t & k0 & j & -> & Ht0)
-                      & (g' & t' & k1 & j' & -> & Ht1) & Hkk & Hc & Hl)
-     |destruct HU as (p & -> & (g & t & k0 & j & -> & Ht0) & Hl)].
-  - exact (F _ LP).
-  - rewrite Hl. destruct (path_eqb (PMsg g t k0 j) (PMsg f s k i)) eqn:E; [|reflexivity].
+                      & (g' & t' & k1 & j' & -> & Ht1) & Hkk & Hc & _ & Hl)
+     |destruct HU as (p & -> & (g & t & k0 & j & -> & Ht0) & Hl)
+     |destruct HD as (a & b & -> & R)].
+  - destruct F as [Hnr F]. assert (E : moved_name lay o f = f).
+    { destruct o; try reflexivity. exfalso. exact (Hnr _ _ eq_refl). }
+    rewrite E. exact (F _ LP).
+  - cbn [moved_name]. rewrite Hl.
+    destruct (path_eqb (PMsg g t k0 j) (PMsg f s k i)) eqn:E; [|reflexivity].
     apply path_eqb_eq in E. inversion E; subst. exfalso. apply Hex. apply Hk. exact Hs.
-  - cbn [touches key_of] in *. subst k1. rewrite Hl.
+  - cbn [touches key_of moved_name] in *. subst k1. rewrite Hl.
     destruct (path_eqb (PMsg g' t' k0 j') (PMsg f s k i)) eqn:E.
     { apply path_eqb_eq in E. inversion E; subst. exfalso. apply Ht. reflexivity. }
     destruct (path_eqb (PMsg g t k0 j) (PMsg f s k i)) eqn:E2; [|reflexivity].
     apply path_eqb_eq in E2. inversion E2; subst. exfalso. apply Ht. reflexivity.
-  - cbn [touches] in Ht. rewrite Hl.
+  - cbn [touches moved_name] in *. rewrite Hl.
     destruct (path_eqb (PMsg g t k0 j) (PMsg f s k i)) eqn:E; [|reflexivity].
     apply path_eqb_eq in E. inversion E; subst. exfalso. apply Ht. reflexivity.
+  - destruct (lookup m (PMsg f s k i)) as [n|] eqn:El; [|exfalso; exact (Hex eq_refl)].
+    rewrite <- move_path_msg. exact (renamedir_forward _ _ _ _ _ _ _ R A El).
 Qed.
 
 (* ------------------------------------------------- serving is preserved *)
+Lemma uidl_at_text m f u :
+  lookup m (PCtl f CUidl) = Some (File (Text (print_uidl u))) -> wf_uidl u = true -> uidl_at m f u.
+Proof. intros H Hw. exists (print_uidl u). split; [exact H|exact (uidl_roundtrip _ Hw)]. Qed.
+
 Lemma legal_step_uidl lay m o m' f u :
-  legal m o -> apply_op lay m o = Some m' -> uidl_at m f u ->
-  exists u', uidl_at m' f u' /\ u_val u' = u_val u /\ u_next u <= u_next u'
+  legal lay m o -> apply_op lay m o = Some m' -> uidl_at m f u ->
+  exists u', uidl_at m' (moved_name lay o f) u' /\ u_val u' = u_val u /\ u_next u <= u_next u'
     /\ (forall uid k, recorded u' uid k -> uid < u_next u -> recorded u uid k)
     /\ (forall uid k, recorded u uid k -> has_file m f k -> recorded u' uid k).
 Proof.
   intros L A [t [Hl Hp]].
-  destruct (legal_uidl_path _ _ _ _ f L A) as [E|[n [t' [u' [_ [_ [Hl' [Hp' [_ He]]]]]]]]].
-  - exists u. split; [exists t; rewrite E; split; assumption|].
-    repeat split; try reflexivity; try (intros; assumption); try apply N.le_refl.
-  - specialize (He u (ex_intro _ t (conj Hl Hp))). destruct He as [Hv [Hn [Ho Hk]]].
-    exists u'. split; [exists t'; split; assumption|].
-    repeat split; assumption.
+  destruct (legal_uidl_path _ _ _ _ f L A)
+    as [[Hnr E]|[[n [u' [Eo [_ [Hl' [Hw [_ He]]]]]]]|[a [b [-> R]]]]].
+  - assert (Em : moved_name lay o f = f).
+    { destruct o; try reflexivity. exfalso. exact (Hnr _ _ eq_refl). }
+    rewrite Em. exists u. split; [exists t; rewrite E; split; assumption|].
+    split; [reflexivity|]. split; [apply N.le_refl|]. split; intros; assumption.
+  - subst o. cbn [moved_name].
+    specialize (He u (ex_intro _ t (conj Hl Hp))). destruct He as [Hv [Hn [Ho Hk]]].
+    exists u'. split; [exact (uidl_at_text _ _ _ Hl' Hw)|]. repeat split; assumption.
+  - exists u. split.
+    + exists t. split; [|exact Hp]. rewrite <- move_path_uidl.
+      exact (renamedir_forward _ _ _ _ _ _ _ R A Hl).
+    + split; [reflexivity|]. split; [apply N.le_refl|]. split; intros; assumption.
 Qed.
 
 Lemma file_at_step lay m o m' f k i c :
-  legal m o -> apply_op lay m o = Some m' -> ~ touches o k ->
-  file_at m f k i c -> file_at m' f k i c.
+  legal lay m o -> apply_op lay m o = Some m' -> ~ touches o k ->
+  file_at m f k i c -> file_at m' (moved_name lay o f) k i c.
 Proof.
   intros L A Ht [s [Hs Hl]]. exists s. split; [exact Hs|].
   rewrite (legal_msg_path _ _ _ _ _ _ _ _ L A Hs Ht); [exact Hl|]. rewrite Hl. discriminate.
 Qed.
 
 Theorem legal_step_serves lay m o m' f v uid k fl c :
-  legal m o -> apply_op lay m o = Some m' -> ~ touches o k ->
-  serves m f v uid k fl c -> serves m' f v uid k fl c.
+  legal lay m o -> apply_op lay m o = Some m' -> ~ touches o k ->
+  serves m f v uid k fl c -> serves m' (moved_name lay o f) v uid k fl c.
 Proof.
   intros L A Ht [u [i [Hu [Hv [Hr [Hf Hfl]]]]]].
   destruct (legal_step_uidl _ _ _ _ _ _ L A Hu) as [u' [Hu' [Hv' [_ [_ Hk]]]]].
@@ -160,26 +251,62 @@ Proof.
 Qed.
 
 (* ------------------------------------------------------ the invariant *)
-Lemma legal_step_inv lay m o m' :
-  Inv m -> legal m o -> apply_op lay m o = Some m' -> Inv m'.
+Lemma apply_op_nodup lay m o m' :
+  NoDup (map fst m) -> (forall a b, o = ORenameDir a b -> rename_ok lay m a b) ->
+  apply_op lay m o = Some m' -> NoDup (map fst m').
 Proof.
-  intros [I1 I2] L A. split.
-  - intros f n Hn.
-    destruct (legal_uidl_path _ _ _ _ f L A) as [E|[n0 [t [u' [_ [_ [Hl [Hp [Hu _]]]]]]]]].
+  intros Hnd Hr A. destruct o; cbn [apply_op] in A.
+  - destruct (is_dir_path p && negb (exists_ m p) && parent_ok m p); [|discriminate].
+    injection A as <-. exact (nodup_add _ _ _ Hnd).
+  - destruct (lookup m p) as [[|c]|]; try discriminate.
+    destruct (existsb _ m); [discriminate|]. injection A as <-. exact (nodup_remove _ _ Hnd).
+  - destruct (negb (is_dir_path p) && negb (exists_ m p) && parent_ok m p); [|discriminate].
+    injection A as <-. exact (nodup_add _ _ _ Hnd).
+  - destruct (lookup m p) as [[|c']|]; try discriminate. injection A as <-.
+    rewrite keys_replace. exact Hnd.
+  - destruct (lookup m p) as [[|c]|]; try discriminate.
+    destruct (negb (is_dir_path q) && parent_ok m q); [|discriminate].
+    destruct (path_eqb p q); injection A as <-; [exact Hnd|].
+    apply nodup_add. exact (nodup_remove _ _ Hnd).
+  - destruct (lookup m (PDir a)) as [[|c]|]; try discriminate.
+    destruct (exists_ m (PDir b)); [discriminate|]. injection A as <-.
+    rewrite rename_dir_map. apply nodup_map_inj; [exact Hnd|]. exact (Hr a b eq_refl).
+  - destruct (lookup m p) as [[|c]|]; try discriminate.
+    destruct (negb (is_dir_path q) && negb (exists_ m q) && parent_ok m q); [|discriminate].
+    injection A as <-. exact (nodup_add _ _ _ Hnd).
+  - destruct (lookup m p) as [[|c]|]; try discriminate. injection A as <-.
+    exact (nodup_remove _ _ Hnd).
+  - destruct (exists_ m p); [|discriminate]. injection A as <-. exact Hnd.
+Qed.
+
+Lemma legal_renamedir_ok lay m a b : legal lay m (ORenameDir a b) -> rename_ok lay m a b.
+Proof. intro L. inversion L. assumption. Qed.
+
+Lemma legal_step_inv lay m o m' :
+  Inv m -> legal lay m o -> apply_op lay m o = Some m' -> Inv m'.
+Proof.
+  intros [I1 I2 I3 I4] L A. split.
+  - (* uid lists *)
+    intros f n Hn.
+    destruct (legal_uidl_path _ _ _ _ f L A)
+      as [[_ E]|[[n0 [u' [_ [_ [Hl [Hw [Hu _]]]]]]]|[a [b [-> R]]]]].
     + rewrite E in Hn. exact (I1 f n Hn).
-    + rewrite Hl in Hn. injection Hn as <-. exists t, u'.
-      split; [reflexivity|]. split; [exact Hp|exact Hu].
-  - intros f s i n f' s' i' n' k Hs Hs' H1 H2.
+    + rewrite Hl in Hn. injection Hn as <-. exists u'.
+      split; [reflexivity|]. split; [exact Hw|exact Hu].
+    + destruct (renamedir_backward _ _ _ _ _ _ _ I4 A Hn) as [p [Hp Ep]].
+      destruct (move_path_is_uidl _ _ _ _ _ Ep) as [f0 ->]. exact (I1 f0 n Hp).
+  - (* keys *)
+    intros f s i n f' s' i' n' k Hs Hs' H1 H2.
     assert (LP1 : live_path (PMsg f s k i)) by (exists f, s, k, i; split; [reflexivity|exact Hs]).
     assert (LP2 : live_path (PMsg f' s' k i')) by (exists f', s', k, i'; split; [reflexivity|exact Hs']).
-    destruct (legal_live _ _ _ _ L A) as [F|[HL|[HR|HU]]];
-    [|destruct HL as (src & dst & c & -> & (g & t & k0 & j & -> & Ht0) & Hk & Hl)
-     |destruct HR as (src & dst & c & -> & (g & t & k0 & j & -> & Ht0)
-                      & (g' & t' & k1 & j' & -> & Ht1) & Hkk & Hc & Hl)
-     |destruct HU as (p & -> & (g & t & k0 & j & -> & Ht0) & Hl)].
+    destruct (legal_live _ _ _ _ L A) as [[_ F]|[HL|[HR|[HU|HD]]]];
+      [|destruct HL as (src & dst & c & -> & (g & t & k0 & j & -> & Ht0) & Hk & _ & _ & Hl)
+       |destruct HR as (src & dst & c & -> & (g & t & k0 & j & -> & Ht0)
+                        & (g' & t' & k1 & j' & -> & Ht1) & Hkk & Hc & _ & Hl)
+       |destruct HU as (p & -> & (g & t & k0 & j & -> & Ht0) & Hl)
+       |destruct HD as (a & b & -> & R)].
     + rewrite (F _ LP1) in H1. rewrite (F _ LP2) in H2. exact (I2 _ _ _ _ _ _ _ _ _ Hs Hs' H1 H2).
-    + (* link: the new file is the only one with its key *)
-      cbn [key_of] in Hk. rewrite Hl in H1, H2.
+    + cbn [key_of] in Hk. rewrite Hl in H1, H2.
       destruct (path_eqb (PMsg g t k0 j) (PMsg f s k i)) eqn:E1;
         destruct (path_eqb (PMsg g t k0 j) (PMsg f' s' k i')) eqn:E2.
       * apply path_eqb_eq in E1. apply path_eqb_eq in E2. inversion E1; inversion E2; subst.
@@ -187,8 +314,7 @@ Proof.
       * apply path_eqb_eq in E1. inversion E1; subst. rewrite (Hk _ _ _ Hs') in H2. discriminate.
       * apply path_eqb_eq in E2. inversion E2; subst. rewrite (Hk _ _ _ Hs) in H1. discriminate.
       * exact (I2 _ _ _ _ _ _ _ _ _ Hs Hs' H1 H2).
-    + (* rename: the file keeps its key; the old name is gone *)
-      cbn [key_of] in Hkk. subst k1. rewrite Hl in H1, H2.
+    + cbn [key_of] in Hkk. subst k1. rewrite Hl in H1, H2.
       destruct (path_eqb (PMsg g' t' k0 j') (PMsg f s k i)) eqn:E1;
         destruct (path_eqb (PMsg g' t' k0 j') (PMsg f' s' k i')) eqn:E2.
       * apply path_eqb_eq in E1. apply path_eqb_eq in E2. inversion E1; inversion E2; subst.
@@ -208,21 +334,56 @@ Proof.
       destruct (path_eqb (PMsg g t k0 j) (PMsg f s k i)); [discriminate|].
       destruct (path_eqb (PMsg g t k0 j) (PMsg f' s' k i')); [discriminate|].
       exact (I2 _ _ _ _ _ _ _ _ _ Hs Hs' H1 H2).
+    + destruct (renamedir_backward _ _ _ _ _ _ _ I4 A H1) as [p1 [Hp1 Ep1]].
+      destruct (renamedir_backward _ _ _ _ _ _ _ I4 A H2) as [p2 [Hp2 Ep2]].
+      destruct (move_path_is_msg _ _ _ _ _ _ _ _ Ep1) as [f1 ->].
+      destruct (move_path_is_msg _ _ _ _ _ _ _ _ Ep2) as [f2 ->].
+      destruct (I2 _ _ _ _ _ _ _ _ _ Hs Hs' Hp1 Hp2) as [-> [-> ->]].
+      rewrite Ep1 in Ep2. inversion Ep2; subst. repeat split; reflexivity.
+  - (* names *)
+    intros f s k i n Hs H.
+    assert (LP : live_path (PMsg f s k i)) by (exists f, s, k, i; split; [reflexivity|exact Hs]).
+    destruct (legal_live _ _ _ _ L A) as [[_ F]|[HL|[HR|[HU|HD]]]];
+      [|destruct HL as (src & dst & c & -> & _ & _ & _ & (g & t & k0 & j & -> & Hwk & Hwi) & Hl)
+       |destruct HR as (src & dst & c & -> & (g0 & t0 & k2 & j0 & Es & Ht0) & _ & _ & Hc
+                        & (g & t & k0 & j & g' & t' & j' & -> & -> & Hj) & Hl)
+       |destruct HU as (p & -> & _ & Hl)
+       |destruct HD as (a & b & -> & R)].
+    + rewrite (F _ LP) in H. exact (I3 _ _ _ _ _ Hs H).
+    + rewrite Hl in H. destruct (path_eqb (PMsg g t k0 j) (PMsg f s k i)) eqn:E.
+      * apply path_eqb_eq in E. inversion E; subst. injection H as <-.
+        repeat split; try assumption. exists c. reflexivity.
+      * exact (I3 _ _ _ _ _ Hs H).
+    + inversion Es; subst g0 t0 k2 j0. destruct (I3 _ _ _ _ _ Ht0 Hc) as [Hwk [Hwi [c0 Ec]]].
+      rewrite Hl in H. destruct (path_eqb (PMsg g' t' k0 j') (PMsg f s k i)) eqn:E.
+      * apply path_eqb_eq in E. inversion E; subst. injection H as <-.
+        split; [exact Hwk|]. split; [destruct Hj as [->|Hj]; assumption|].
+        exists c0. injection Ec as ->. reflexivity.
+      * destruct (path_eqb (PMsg g t k0 j) (PMsg f s k i)); [discriminate|].
+        exact (I3 _ _ _ _ _ Hs H).
+    + rewrite Hl in H. destruct (path_eqb p (PMsg f s k i)); [discriminate|].
+      exact (I3 _ _ _ _ _ Hs H).
+    + destruct (renamedir_backward _ _ _ _ _ _ _ I4 A H) as [p [Hp Ep]].
+      destruct (move_path_is_msg _ _ _ _ _ _ _ _ Ep) as [f1 ->]. exact (I3 _ _ _ _ _ Hs Hp).
+  - (* one entry per path *)
+    apply (apply_op_nodup lay m o m' I4); [|exact A].
+    intros a b ->. exact (legal_renamedir_ok _ _ _ _ L).
 Qed.
 
 (* a message file is never rewritten: as long as its key exists it names the
    same content *)
 Lemma legal_step_content lay m o m' f k i c f' i' c' :
-  Inv m -> legal m o -> apply_op lay m o = Some m' ->
+  Inv m -> legal lay m o -> apply_op lay m o = Some m' ->
   file_at m f k i c -> file_at m' f' k i' c' -> c = c'.
 Proof.
-  intros [I1 I2] L A [s [Hs H1]] [s' [Hs' H2]].
+  intros [I1 I2 I3 I4] L A [s [Hs H1]] [s' [Hs' H2]].
   assert (LP2 : live_path (PMsg f' s' k i')) by (exists f', s', k, i'; split; [reflexivity|exact Hs']).
-  destruct (legal_live _ _ _ _ L A) as [F|[HL|[HR|HU]]];
-    [|destruct HL as (src & dst & c0 & -> & (g & t & k0 & j & -> & Ht0) & Hk & Hl)
+  destruct (legal_live _ _ _ _ L A) as [[_ F]|[HL|[HR|[HU|HD]]]];
+    [|destruct HL as (src & dst & c0 & -> & (g & t & k0 & j & -> & Ht0) & Hk & _ & _ & Hl)
      |destruct HR as (src & dst & c0 & -> & (g & t & k0 & j & -> & Ht0)
-                      & (g' & t' & k1 & j' & -> & Ht1) & Hkk & Hc & Hl)
-     |destruct HU as (p & -> & (g & t & k0 & j & -> & Ht0) & Hl)].
+                      & (g' & t' & k1 & j' & -> & Ht1) & Hkk & Hc & _ & Hl)
+     |destruct HU as (p & -> & (g & t & k0 & j & -> & Ht0) & Hl)
+     |destruct HD as (a & b & -> & R)].
   - rewrite (F _ LP2) in H2.
     destruct (I2 _ _ _ _ _ _ _ _ _ Hs Hs' H1 H2) as [-> [-> ->]]. congruence.
   - cbn [key_of] in Hk. rewrite Hl in H2.
@@ -237,23 +398,15 @@ Proof.
       destruct (I2 _ _ _ _ _ _ _ _ _ Hs Hs' H1 H2) as [-> [-> ->]]. congruence.
   - rewrite Hl in H2. destruct (path_eqb (PMsg g t k0 j) (PMsg f' s' k i')); [discriminate|].
     destruct (I2 _ _ _ _ _ _ _ _ _ Hs Hs' H1 H2) as [-> [-> ->]]. congruence.
+  - destruct (renamedir_backward _ _ _ _ _ _ _ I4 A H2) as [p [Hp Ep]].
+    destruct (move_path_is_msg _ _ _ _ _ _ _ _ Ep) as [f1 ->].
+    destruct (I2 _ _ _ _ _ _ _ _ _ Hs Hs' H1 Hp) as [-> [-> ->]]. congruence.
 Qed.
 
 (* ------------------------------------------------ runs and their prefixes *)
 Lemma legal_run_apply lay m l m' : legal_run lay m l m' -> apply_ops lay m l = (m', true).
 Proof. induction 1 as [|m o m1 l m2 L A R IH]; cbn [apply_ops]; [reflexivity|].
   rewrite A. exact IH. Qed.
-
-Lemma legal_run_prefix lay m l m' k :
-  legal_run lay m l m' -> exists mk, legal_run lay m (crash k l) mk.
-Proof.
-  intro R. revert k. induction R as [|m o m1 l m2 L A R IH]; intro k.
-  - exists m. unfold crash. rewrite firstn_nil. constructor.
-  - destruct k as [|k].
-    + exists m. constructor.
-    + destruct (IH k) as [mk Rk]. exists mk. unfold crash in *. cbn [firstn].
-      econstructor; eassumption.
-Qed.
 
 Lemma legal_run_app lay m l1 m1 l2 m2 :
   legal_run lay m l1 m1 -> legal_run lay m1 l2 m2 -> legal_run lay m (l1 ++ l2) m2.
@@ -265,62 +418,36 @@ Proof. intros I R. induction R as [|m o m1 l m2 L A R IH]; [exact I|].
 
 Theorem run_serves lay m l m' f v uid k fl c :
   legal_run lay m l m' -> ~ touched l k ->
-  serves m f v uid k fl c -> serves m' f v uid k fl c.
+  serves m f v uid k fl c -> serves m' (moved_names lay l f) v uid k fl c.
 Proof.
-  intros R. induction R as [|m o m1 l m2 L A R IH]; intros Ht S; [exact S|].
-  apply IH.
+  intros R. revert f. induction R as [|m o m1 l m2 L A R IH]; intros f Ht S; [exact S|].
+  cbn [moved_names fold_left]. apply IH.
   - intro T. apply Ht. apply Exists_cons_tl. exact T.
   - apply (legal_step_serves _ _ _ _ _ _ _ _ _ _ L A); [|exact S].
     intro T. apply Ht. apply Exists_cons_hd. exact T.
 Qed.
 
-Lemma uid_stable_refl m : uid_stable m m.
+Lemma uid_stable_refl m : uid_stable_via (fun f => f) m m.
 Proof. intros f u Hu. exists u. split; [exact Hu|]. split; [reflexivity|].
   split; [apply N.le_refl|]. intros; assumption. Qed.
 
-Lemma uid_stable_trans m1 m2 m3 : uid_stable m1 m2 -> uid_stable m2 m3 -> uid_stable m1 m3.
+Lemma uid_stable_trans p1 p2 m1 m2 m3 :
+  uid_stable_via p1 m1 m2 -> uid_stable_via p2 m2 m3 ->
+  uid_stable_via (fun f => p2 (p1 f)) m1 m3.
 Proof.
   intros H12 H23 f u1 Hu1.
   destruct (H12 f u1 Hu1) as [u2 [Hu2 [Hv2 [Hn2 Ho2]]]].
-  destruct (H23 f u2 Hu2) as [u3 [Hu3 [Hv3 [Hn3 Ho3]]]].
+  destruct (H23 _ u2 Hu2) as [u3 [Hu3 [Hv3 [Hn3 Ho3]]]].
   exists u3. split; [exact Hu3|]. split; [congruence|]. split; [lia|].
   intros uid k Hr Hlt. apply Ho2; [|exact Hlt]. apply Ho3; [exact Hr|lia].
 Qed.
 
-Theorem run_uid_stable lay m l m' : legal_run lay m l m' -> uid_stable m m'.
+Theorem run_uid_stable lay m l m' :
+  legal_run lay m l m' -> uid_stable_via (moved_names lay l) m m'.
 Proof.
   induction 1 as [|m o m1 l m2 L A R IH]; [apply uid_stable_refl|].
-  apply (uid_stable_trans _ m1); [|exact IH].
-  intros f u Hu. destruct (legal_step_uidl _ _ _ _ _ _ L A Hu) as [u' [Hu' [Hv [Hn [Ho _]]]]].
-  exists u'. repeat split; assumption.
-Qed.
-
-(* uid lists read back in any state of a run: a uid names one key for ever *)
-Theorem uid_names_one_key lay m l m' f u u' uid k k' :
-  Inv m -> legal_run lay m l m' ->
-  uidl_at m f u -> uidl_at m' f u' ->
-  recorded u uid k -> recorded u' uid k' -> k = k'.
-Proof.
-  intros I R Hu Hu' Hr Hr'.
-  destruct (run_uid_stable _ _ _ _ R f u Hu) as [u2 [Hu2 [_ [_ Ho]]]].
-  assert (u2 = u').
-  { destruct Hu2 as [t [H1 H2]]. destruct Hu' as [t' [H1' H2']]. congruence. }
-  subst u2.
-  destruct I as [I1 _]. destruct Hu as [t [Hl Hp]].
-  destruct (I1 f _ Hl) as [t0 [u0 [Et [Hp0 [Hnd Hlt]]]]].
-  injection Et as <-. rewrite Hp in Hp0. injection Hp0 as <-.
-  assert (Hlt' : uid < u_next u).
-  { destruct Hr as [r [Hin [<- _]]]. exact (Hlt r Hin). }
-  specialize (Ho uid k' Hr' Hlt').
-  destruct Hr as [r [Hin [Hu1 Hk1]]]. destruct Ho as [r' [Hin' [Hu1' Hk1']]].
-  assert (r = r').
-  { clear - Hnd Hin Hin' Hu1 Hu1'. revert Hnd Hin Hin'. generalize (u_recs u).
-    induction l as [|x l IH]; cbn [map In]; intros Hnd Hin Hin'; [contradiction|].
-    inversion Hnd as [|? ? Hx Hl]; subst.
-    destruct Hin as [->|Hin], Hin' as [->|Hin'].
-    - reflexivity.
-    - exfalso. apply Hx. apply in_map_iff. exists r'. split; [congruence|exact Hin'].
-    - exfalso. apply Hx. apply in_map_iff. exists r. split; [congruence|exact Hin].
-    - exact (IH Hl Hin Hin'). }
-  subst r'. congruence.
+  assert (S1 : uid_stable_via (moved_name lay o) m m1).
+  { intros f u Hu. destruct (legal_step_uidl _ _ _ _ _ _ L A Hu) as [u' [Hu' [Hv [Hn [Ho _]]]]].
+    exists u'. repeat split; assumption. }
+  exact (uid_stable_trans _ _ _ _ _ S1 IH).
 Qed.
